@@ -132,7 +132,7 @@ pub trait Scenario: Sync {
     fn classify_death(&self, _how: &str, _workload: &Value, _property: &str) -> Option<Violation> {
         None
     }
-    fn cpu_limit_s(&self) -> u64 {
+    fn cpu_limit_s(&self, _property: &str) -> u64 {
         20
     }
     /// Build per-worker fixtures (templates, pools made by git) once, outside any simulation.
@@ -295,7 +295,7 @@ pub fn run_one(spec: &RunSpec, shm: &Shm) -> (ChildEnd, Vec<u16>) {
         }
         if pid == 0 {
             // ---- child ----
-            let cpu = spec.scenario.cpu_limit_s();
+            let cpu = spec.scenario.cpu_limit_s(spec.property);
             let lim = libc::rlimit { rlim_cur: cpu, rlim_max: cpu + 2 };
             libc::setrlimit(libc::RLIMIT_CPU, &lim);
             libc::alarm((cpu * 6).max(60) as u32); // wall-clock backstop
